@@ -211,6 +211,9 @@ func printfFunc(printFn func(string)) builtinFunc {
 		if !ok {
 			return nil, fmt.Errorf(`%w: first argument of "printf" must be a string`, ErrBadArguments)
 		}
+		if err := checkFormatArgs(format.V, args[1:]); err != nil {
+			return nil, err
+		}
 		s := sprintf(format.V, args[1:])
 		printFn(s)
 		return &noneVal{}, nil
@@ -235,7 +238,60 @@ func sprintfFunc(_ *scope, args []value) (value, error) {
 	if !ok {
 		return nil, fmt.Errorf(`%w: first argument of "sprintf" must be a string`, ErrBadArguments)
 	}
+	if err := checkFormatArgs(format.V, args[1:]); err != nil {
+		return nil, err
+	}
 	return &stringVal{V: sprintf(format.V, args[1:])}, nil
+}
+
+// checkFormatArgs returns a bad arguments error for the first argument
+// whose type does not match its %s, %q, %f, %e or %t specifier as
+// documented for printf. Other specifiers are left to sprintf.
+func checkFormatArgs(format string, vals []value) error {
+	argIdx := 0
+	for i := 0; i < len(format); i++ {
+		if format[i] != '%' {
+			continue
+		}
+		i++
+		for i < len(format) && strings.IndexByte("+-# 0123456789.", format[i]) >= 0 {
+			i++ // flags, width and precision
+		}
+		if i >= len(format) || format[i] == '*' || format[i] == '[' {
+			return nil // explicit argument indexes and widths are not checked
+		}
+		verb := format[i]
+		if verb == '%' {
+			continue
+		}
+		if argIdx >= len(vals) {
+			return nil
+		}
+		val := vals[argIdx]
+		argIdx++
+		if a, ok := val.(*anyVal); ok {
+			val = a.V
+		}
+		expected := ""
+		switch verb {
+		case 's', 'q':
+			if _, ok := val.(*stringVal); !ok {
+				expected = "string"
+			}
+		case 'f', 'e':
+			if _, ok := val.(*numVal); !ok {
+				expected = "num"
+			}
+		case 't':
+			if _, ok := val.(*boolVal); !ok {
+				expected = "bool"
+			}
+		}
+		if expected != "" {
+			return fmt.Errorf("%w: format specifier %%%c expects %s argument, found %s", ErrBadArguments, verb, expected, val.Repr())
+		}
+	}
+	return nil
 }
 
 func sprintf(s string, vals []value) string {
@@ -667,8 +723,12 @@ func validateTestArgs(args []value) error {
 		}
 	}
 	if len(args) > 2 {
-		if _, ok := args[2].(*anyVal).V.(*stringVal); !ok {
+		msg, ok := args[2].(*anyVal).V.(*stringVal)
+		if !ok {
 			return fmt.Errorf(`%w: "test" with three or more argument expects third argument to be string message`, ErrBadArguments)
+		}
+		if len(args) > 3 {
+			return checkFormatArgs(msg.V, args[3:])
 		}
 	}
 	return nil
